@@ -71,6 +71,10 @@ class InElastic(_Simu):
         self.__z: dict["ElemType", FeArray] = {}
         self.__zOld: dict["ElemType", FeArray] = {}
 
+    def _Init_internal_variables(self) -> None:
+        self.__z = {}
+        self.__zOld = {}
+
     @property
     def dt(self) -> float:
         """Time increment, read by a rate-dependent material."""
